@@ -59,8 +59,8 @@ theorem lowerS_append (env : Env) (a b : Str) : lowerS env (a ++ b) = lowerS env
 
 /-! ### matching -/
 
-/-- `c'` is a case variant of `c`: same length and the same lower-cased code points (e.g. per-character
-    upper/lower flips). -/
+/-- `c'` is a case variant of `c`: the same case-folded code points (per-character upper/lower flips, but also
+    `STRASSE` for `straße`: lengths may differ). -/
 def CaseVariant (env : Env) (c c' : Str) : Prop := lowerS env c = lowerS env c'
 
 /-- the regex `p` (searched with IGNORECASE) does not distinguish case variants -/
